@@ -318,7 +318,28 @@ func checkTransportFactory(c *Ctx, r *Report) {
 	typeParam := fn.Params[2]
 	want := map[string]string{"NewSystemTransport": "system", "NewStandardTransport": "standard", "NewTelnetTransport": "telnet", "NewFileTransport": "file"}
 	seen := map[string]bool{}
+	// the selection may live in NewTransport or in a helper of the package that is handed the transport type
+	type site struct {
+		ci  ssa.CallInstruction
+		typ ssa.Value
+	}
+	var sites []site
 	for _, ci := range callInstrs(fn) {
+		sites = append(sites, site{ci, typeParam})
+		h := ci.Common().StaticCallee()
+		if h == nil || h.Pkg != fn.Pkg || len(h.Blocks) == 0 || h.Object() == nil || h.Object().Exported() {
+			continue
+		}
+		for ai, a := range ci.Common().Args {
+			if a == ssa.Value(typeParam) && ai < len(h.Params) {
+				for _, hc := range callInstrs(h) {
+					sites = append(sites, site{hc, h.Params[ai]})
+				}
+			}
+		}
+	}
+	for _, st := range sites {
+		ci, typeParam := st.ci, st.typ
 		sc := ci.Common().StaticCallee()
 		if sc == nil {
 			continue
@@ -332,7 +353,7 @@ func checkTransportFactory(c *Ctx, r *Report) {
 		other := ""
 		for _, ec := range edgeConds(ci.Block()) {
 			bo, isBo := ec.Cond.(*ssa.BinOp)
-			if !isBo || bo.Op != token.EQL || !ec.Truth || bo.X != ssa.Value(typeParam) {
+			if !isBo || bo.Op != token.EQL || !ec.Truth || bo.X != typeParam {
 				continue
 			}
 			if s, isS := constString(bo.Y); isS {
